@@ -71,6 +71,15 @@ func runC06(r *Report) {
 		return
 	}
 	defer s3.Close()
+	// the decode direction of the round trip needs fresh storage per element (see C08/fresh-element)
+	r.Rule("C06/fresh-element", "every decoder loop decodes into a variable declared in the loop body or reset before the decode (json.Unmarshal and the generated UnmarshalJSON merge into their target): otherwise decode(encode(v)) != v for collections whose later elements omit what earlier ones set")
+	for _, jp := range progs {
+		before := len(r.Obls)
+		n := freshElements(r, s3, jp.P, jp.P.Pkg.Types, jp.P.Pkg.TypesInfo, jp.P.Pkg.Syntax, "C06/fresh-element")
+		if len(r.Obls) == before {
+			r.OK("C06/fresh-element", jp.P.Name, "", fmt.Sprintf("%d decoder loops", n))
+		}
+	}
 	nObj := 0
 	for _, jp := range progs {
 		p := jp.P
